@@ -53,14 +53,57 @@ Definition spec_b (x : input) (identity_produced : bool) : bool :=
       end).
 
 (* ---------------------------------------------------------------------------------------------
+   The same property over the whole message: any <Conditions> shape (with or without a validity
+   period, with other children, or no Conditions element at all) and any list of
+   SubjectConfirmation elements.  "Every AudienceRestriction must match" ranges over every
+   restriction the assertion carries; the Recipient clause ranges over EVERY bearer confirmation
+   whose data confirms the subject (a confirmation that the provider cannot use on its own
+   account - no data, or data that does not confirm - is not something identity is produced from). *)
+Definition all_restrictions (c : option conditions) : list (list audience) :=
+  match c with None => [] | Some k => k_rs k end.
+
+Definition spec_m (x : message) (identity_produced : bool) : Prop :=
+  identity_produced = true ->
+    restrictions_satisfied (all_restrictions (m_conds x)) (m_me x)
+    /\ (front_channel (m_binding x) ->
+        forall d, m_dest x = Some d -> d <> "" -> own_endpoint (m_specs x) (m_binding x) d)
+    /\ (forall eid c d r, m_conv x = Some eid -> In c (m_confs x) -> c_method c = Bearer ->
+        c_data c = Some d -> d_confirmed d = true -> d_recipient d = Some r ->
+        eid = Some r \/ own_endpoint (m_specs x) (m_binding x) r).
+
+Definition conf_ok_b (specs : list epspec) (binding : string) (eid : option string) (c : confirmation) : bool :=
+  match c_method c, c_data c with
+  | Bearer, Some d =>
+      negb (d_confirmed d) ||
+      match d_recipient d with
+      | Some r => opt_eqb String.eqb eid (Some r) || own_endpoint_b specs binding r
+      | None => true
+      end
+  | _, _ => true
+  end.
+
+Definition spec_m_b (x : message) (identity_produced : bool) : bool :=
+  negb identity_produced ||
+  (forallb (fun r => existsb (aud_names_b (m_me x)) r) (all_restrictions (m_conds x))
+   && (negb (asynchop (m_binding x)) ||
+       match m_dest x with
+       | Some d => is_empty d || own_endpoint_b (m_specs x) (m_binding x) d
+       | None => true
+       end)
+   && match m_conv x with
+      | Some eid => forallb (conf_ok_b (m_specs x) (m_binding x) eid) (m_confs x)
+      | None => true
+      end).
+
+(* ---------------------------------------------------------------------------------------------
    The property over call sequences: whatever was called before — on this provider object or on
    any other provider object of the process — every parse_authn_request_response call satisfies
-   [spec] with respect to the configuration of the object it was called on ("the provider's own
+   [spec_m] with respect to the configuration of the object it was called on ("the provider's own
    entityID", "the provider's own endpoints").  Calls that produce no identity carry no
    obligation; a result of the wrong kind for a parse call is a failure. *)
 Definition spec_ev (o : op) (r : out) : Prop :=
   match o, r with
-  | OParse x, RId b => spec x b
+  | OParse x, RId b => spec_m x b
   | OParse _, _ => False
   | _, _ => True
   end.
@@ -69,7 +112,7 @@ Definition spec_trace (ops : list op) (rs : list out) : Prop := Forall2 spec_ev 
 
 Definition spec_ev_b (o : op) (r : out) : bool :=
   match o, r with
-  | OParse x, RId b => spec_b x b
+  | OParse x, RId b => spec_m_b x b
   | OParse _, _ => false
   | _, _ => true
   end.
